@@ -934,15 +934,23 @@ class MethFn(ProcFn):
 
     STORED = {"_scheme": "u_scheme", "_netloc": "u_netloc", "_path": "u_path", "_query": "u_query", "_fragment": "u_fragment"}
     PROPS = {"explicit_port": ("explicit_port", "optint"), "host_subcomponent": ("host_subcomponent", "optstr"),
-             "raw_user": ("raw_user", "optstr"), "raw_password": ("raw_password", "optstr")}
+             "raw_user": ("raw_user", "optstr"), "raw_password": ("raw_password", "optstr"), "raw_host": ("raw_host", "optstr")}
     CALLEES = dict(ProcFn.CALLEES)
     CALLEES["make_netloc"] = ("make_netloc' B", [("user", "optstr", None), ("password", "optstr", None), ("host", "optstr", None),
                                                 ("port", "optint", None), ("encode", "bool", "false")], "str", False)
+    for _n in ("UNQUOTER", "PATH_UNQUOTER", "PATH_SAFE_UNQUOTER"):
+        CALLEES[_n] = ("UQ B " + _n, [("s", "str", None)], "str", False)
     CALLEES["unsplit_result"] = ("unsplit_result", [("scheme", "str", None), ("netloc", "str", None), ("url", "str", None),
                                                     ("query", "str", None), ("fragment", "str", None)], "str", False)
 
+    RT = {"rstr": (True, "str"), "bool": (False, "bool"), "strs": (False, "strs"), "str": (False, "str"),
+          "roptstr": (True, "optstr"), "roptint": (True, "optint"), "rbool": (True, "bool"), "rmemo": (True, "memo")}
+    MEMO_KEYS = {"raw_user": ("m_user", "optstr"), "raw_password": ("m_password", "optstr"),
+                 "raw_host": ("m_host", "optstr"), "explicit_port": ("m_port", "optint")}
+
     def __init__(self, rett, methods):
-        self.rett = rett          # "rstr" | "bool" | "strs"
+        self.rett = rett          # a key of RT
+        self.fallible, self.rtype = self.RT[rett]
         self.methods = methods    # name -> return type of methods translated so far
         self.fresh = 0
 
@@ -961,6 +969,23 @@ class MethFn(ProcFn):
             return f"(gen_{e.func.attr.strip('_')} {e.func.value.id})", self.methods[e.func.attr]
         if isinstance(e, ast.BoolOp) or isinstance(e, ast.Compare) or (isinstance(e, ast.UnaryOp) and isinstance(e.op, ast.Not)):
             return self.cond_bool(e, env), "bool"
+        # self._cache["raw_user"] after self._cache_netloc()
+        if isinstance(e, ast.Subscript) and ast.unparse(e.value) == "self._cache" and isinstance(e.slice, ast.Constant) \
+                and e.slice.value in self.MEMO_KEYS and "%memo" in env:
+            f, t = self.MEMO_KEYS[e.slice.value]
+            return f"({f} {env['%memo']})", t
+        # DEFAULT_PORTS.get(scheme)
+        if isinstance(e, ast.Call) and ast.unparse(e.func) == "DEFAULT_PORTS.get" and len(e.args) == 1 and not e.keywords:
+            a, ta = self.expr(e.args[0], env)
+            if ta != "str":
+                raise Untranslatable("DEFAULT_PORTS.get of " + ta)
+            return f"(default_port {a})", "optint"
+        # raw.rstrip(".")
+        if isinstance(e, ast.Call) and isinstance(e.func, ast.Attribute) and e.func.attr == "rstrip" and len(e.args) == 1 and not e.keywords:
+            a, ta = self.expr(e.func.value, env)
+            if ta != "str":
+                raise Untranslatable("rstrip of " + ta)
+            return f"(rstrip [{one_char(e.args[0])}] {a})", "str"
         return super().expr(e, env)
 
     def cond_bool(self, test, env):
@@ -990,6 +1015,12 @@ class MethFn(ProcFn):
             a, ta = self.expr(test, env)
             if ta == "str":
                 return f"(nonempty {a})"
+        if isinstance(test, ast.Compare) and len(test.ops) == 1 and isinstance(test.ops[0], ast.Eq) \
+                and isinstance(test.left, ast.Subscript) and ast.unparse(test.left.slice) == "-1:" \
+                and isinstance(test.comparators[0], ast.Constant):
+            a, ta = self.expr(test.left.value, env)
+            if ta == "str":
+                return f"(str_eqb (last1 {a}) {lit(test.comparators[0].value)})"
         return super().cond_bool(test, env)
 
     # ---- hoisting of property reads (they may raise) out of a statement
@@ -1024,7 +1055,7 @@ class MethFn(ProcFn):
         if kind == "bind":
             obj, prop = what
             head, t = self.PROPS[prop]
-            if self.rett != "rstr":
+            if not self.fallible:
                 raise Untranslatable("a property that may raise in a method that returns " + self.rett)
             e1[nm] = t
             return f"(match {head} {obj} with Err e => Err e | Ok {nm} => {self.with_binds(binds[1:], e1, k)} end)"
@@ -1052,12 +1083,62 @@ class MethFn(ProcFn):
             val = self.hoist(st.value, env, binds)
 
             def fin(e1):
+                if isinstance(val, ast.IfExp):
+                    try:
+                        self.cond_bool(val.test, e1)
+                    except Untranslatable:
+                        mk = lambda x: (lambda e2: self.stmts([ast.Return(value=x)], e2, rec))
+                        return self.branch(val.test, e1, mk(val.body), mk(val.orelse))
                 v, tv = self.expr(val, e1)
-                want = {"rstr": "str", "bool": "bool", "strs": "strs"}[self.rett]
-                if tv != want:
-                    raise Untranslatable(f"return of type {tv} in a method declared {self.rett}")
-                return f"(Ok {v})" if self.rett == "rstr" else v
+                v = self.coerce(v, tv, self.rtype)
+                return f"(Ok {v})" if self.fallible else v
             return self.with_binds(binds, env, fin)
+        # self._cache_netloc()
+        if isinstance(st, ast.Expr) and ast.unparse(st.value) == "self._cache_netloc()":
+            if not self.fallible or self.methods.get("_cache_netloc") != "rmemo":
+                raise Untranslatable("_cache_netloc() here")
+            self.fresh += 1
+            nm = f"memo_{self.fresh}"
+            e1 = dict(env)
+            e1["%memo"] = nm
+            return f"(match gen_cache_netloc self with Err e => Err e | Ok {nm} => {self.stmts(rest, e1, rec)} end)"
+        # the body of _cache_netloc: c = self._cache; t = split_netloc(self._netloc); c[k1], ..., c[k4] = t
+        if self.rett == "rmemo" and isinstance(st, ast.Assign) and ast.unparse(st.value) == "self._cache" \
+                and len(st.targets) == 1 and isinstance(st.targets[0], ast.Name):
+            e1 = dict(env)
+            e1[st.targets[0].id] = "cachealias"
+            return self.stmts(rest, e1, rec)
+        if self.rett == "rmemo" and isinstance(st, ast.Assign) and len(st.targets) == 1 and isinstance(st.targets[0], ast.Name) \
+                and isinstance(st.value, ast.Call) and isinstance(st.value.func, ast.Name) and st.value.func.id == "split_netloc" \
+                and len(st.value.args) == 1 and not st.value.keywords:
+            a, ta = self.expr(st.value.args[0], env)
+            if ta != "str":
+                raise Untranslatable("split_netloc of " + ta)
+            nm = st.targets[0].id
+            comps = [f"{nm}_{i}" for i in range(4)]
+            e1 = dict(env)
+            for x, tx in zip(comps, ("optstr", "optstr", "optstr", "optint")):
+                e1[x] = tx
+            e1[nm] = ("tuple", tuple(comps))
+            return f"(match split_netloc {a} with Err e => Err e | Ok ({', '.join(comps)}) => {self.stmts(rest, e1, rec)} end)"
+        if self.rett == "rmemo" and isinstance(st, ast.Assign) and len(st.targets) == 1 and isinstance(st.targets[0], ast.Tuple) \
+                and isinstance(st.value, ast.Name) and isinstance(env.get(st.value.id), tuple) and not rest:
+            comps = env[st.value.id][1]
+            tg = st.targets[0].elts
+            fields = {}
+            if len(tg) != len(comps):
+                raise Untranslatable("tuple arity")
+            for x, cn in zip(tg, comps):
+                if not (isinstance(x, ast.Subscript) and isinstance(x.value, ast.Name) and env.get(x.value.id) == "cachealias"
+                        and isinstance(x.slice, ast.Constant) and x.slice.value in self.MEMO_KEYS and x.slice.value not in fields):
+                    raise Untranslatable("store " + ast.unparse(x))
+                f, t = self.MEMO_KEYS[x.slice.value]
+                if env[cn] != t:
+                    raise Untranslatable("type of " + x.slice.value)
+                fields[f] = cn
+            if len(fields) != 4:
+                raise Untranslatable("all four authority keys must be stored")
+            return "(Ok (mk_memo " + " ".join(fields[f] for f in ("m_user", "m_password", "m_host", "m_port")) + "))"
         if isinstance(st, ast.Assign) and len(st.targets) == 1 and isinstance(st.targets[0], ast.Name):
             binds = []
             val = self.hoist(st.value, env, binds)
@@ -1073,18 +1154,22 @@ class MethFn(ProcFn):
         raise Untranslatable("statement " + ast.unparse(st)[:80])
 
     def COQ2(self, t):
-        return {"strs": "list str"}.get(t) or self.COQ[t]
+        return {"strs": "list str", "memo": "memo"}.get(t) or self.COQ[t]
 
     def translate(self, fd):
-        if fd.args.vararg or fd.args.kwarg or fd.args.kwonlyargs or fd.args.posonlyargs or fd.args.defaults or fd.decorator_list:
+        if fd.args.vararg or fd.args.kwarg or fd.args.kwonlyargs or fd.args.posonlyargs or fd.args.defaults:
             raise Untranslatable("signature of " + fd.name)
+        for d in fd.decorator_list:
+            if ast.unparse(d) != "cached_property":     # a memo over a pure getter is the getter (C08)
+                raise Untranslatable("decorator " + ast.unparse(d))
         names = [a.arg for a in fd.args.args]
         if names not in (["self"], ["self", "other"]):
             raise Untranslatable("parameters of " + fd.name)
         env = {n: "url" for n in names}
         body = self.stmts(list(fd.body), env, {})
         ps = " ".join(f"({n} : url)" for n in names)
-        rt = {"rstr": "result str", "bool": "bool", "strs": "list str"}[self.rett]
+        base = {"str": "str", "bool": "bool", "strs": "list str", "optstr": "option str", "optint": "option N", "memo": "memo"}[self.rtype]
+        rt = f"result ({base})" if self.fallible else base
         return f"Definition gen_{fd.name.strip('_')} {ps} : {rt} :=\n  {body}.", (["url"] * len(names), self.rett)
 
 
@@ -1107,7 +1192,22 @@ SOURCES = [
       ("URL.__le__", "(self other : url) : bool", "false", "meth", "bool"),
       ("URL.__lt__", "(self other : url) : bool", "false", "meth", "bool"),
       ("URL.__ge__", "(self other : url) : bool", "false", "meth", "bool"),
-      ("URL.__gt__", "(self other : url) : bool", "false", "meth", "bool")]),
+      ("URL.__gt__", "(self other : url) : bool", "false", "meth", "bool"),
+      ("URL._cache_netloc", "(self : url) : result memo", "Err OtherError", "meth", "rmemo"),
+      ("URL.raw_user", "(self : url) : result (option str)", "Err OtherError", "meth", "roptstr"),
+      ("URL.raw_password", "(self : url) : result (option str)", "Err OtherError", "meth", "roptstr"),
+      ("URL.raw_host", "(self : url) : result (option str)", "Err OtherError", "meth", "roptstr"),
+      ("URL.explicit_port", "(self : url) : result (option N)", "Err OtherError", "meth", "roptint"),
+      ("URL.user", "(self : url) : result (option str)", "Err OtherError", "meth", "roptstr"),
+      ("URL.password", "(self : url) : result (option str)", "Err OtherError", "meth", "roptstr"),
+      ("URL.host_subcomponent", "(self : url) : result (option str)", "Err OtherError", "meth", "roptstr"),
+      ("URL.host_port_subcomponent", "(self : url) : result (option str)", "Err OtherError", "meth", "roptstr"),
+      ("URL.port", "(self : url) : result (option N)", "Err OtherError", "meth", "roptint"),
+      ("URL.is_default_port", "(self : url) : result bool", "Err OtherError", "meth", "rbool"),
+      ("URL.raw_path", "(self : url) : str", "[]", "meth", "str"),
+      ("URL.path", "(self : url) : str", "[]", "meth", "str"),
+      ("URL.path_safe", "(self : url) : str", "[]", "meth", "str"),
+      ("URL.absolute", "(self : url) : bool", "false", "meth", "bool")]),
 ]
 
 
